@@ -13,7 +13,9 @@ import (
 
 type c05Conn struct {
 	first   byte
+	second  byte // what follows the first byte on the wire
 	n       int
+	pos     int // bytes taken from the wire so far
 	readErr bool
 	reads   int
 }
@@ -26,7 +28,12 @@ func (c *c05Conn) Read(p []byte) (int, error) {
 	if c.n == 0 || len(p) == 0 {
 		return 0, nil
 	}
-	p[0] = c.first
+	if c.pos == 0 {
+		p[0] = c.first
+	} else {
+		p[0] = c.second
+	}
+	c.pos++
 	return 1, nil
 }
 func (c *c05Conn) Write(p []byte) (int, error)        { return len(p), nil }
@@ -47,7 +54,7 @@ func c05StubTLSServer(conn net.Conn, config *tls.Config) *tls.Conn {
 
 // VerifC05Sniff: first-byte dispatch of a new control connection.
 func VerifC05Sniff() {
-	raw := &c05Conn{first: zzverif.Byte("firstByte"), n: zzverif.Choice("n", 2), readErr: zzverif.Bool("readErr")}
+	raw := &c05Conn{first: zzverif.Byte("firstByte"), second: zzverif.Byte("secondByte"), n: zzverif.Choice("n", 2), readErr: zzverif.Bool("readErr")}
 	force := zzverif.Bool("forceTLS")
 	c05TLSUnder = nil
 	out, isTLS, custom, err := CheckAndEnableTLSServerConnWithTimeout(raw, &tls.Config{}, force, time.Second)
@@ -60,6 +67,8 @@ func VerifC05Sniff() {
 	case got && raw.first == 0x17:
 		zzverif.Assert(err == nil && isTLS && custom, "C05.sniff.custom-byte-is-tls")
 		zzverif.Assert(len(c05TLSUnder) == 1 && c05TLSUnder[0] == net.Conn(raw), "C05.sniff.custom-byte-consumed")
+		// whatever follows the head byte belongs to the TLS layer: nothing more is read or interpreted here
+		zzverif.Assert(raw.pos == 1, "C05.sniff.only-the-head-byte-is-taken-from-the-wire")
 		zzverif.Reach("C05.sniff.custom")
 	case got && raw.first == 0x16:
 		zzverif.Assert(err == nil && isTLS && !custom, "C05.sniff.handshake-byte-is-tls")
